@@ -5,6 +5,8 @@ Only property theorems live here (helper lemmas: `Lemmas/Summarize.lean`).
 import Bermuda.Model.Summarize
 import Bermuda.Spec.C09
 import Bermuda.Generated.Summarize
+import Bermuda.Lemmas.Summarize
+import Bermuda.Lemmas.SummarizeSpec
 namespace Bermuda.Properties.C09
 open Bermuda Bermuda.Spec.C09
 
@@ -53,6 +55,409 @@ theorem rules_complete :
 theorem non_loss_metrics_bound :
     (∀ f ∈ Generated.Summarize.nonLossMetrics, f ∈ premiumFields ∨ f ∈ ratioFields) ∧
     (∀ f ∈ premiumFields ++ ratioFields, f ∈ Generated.Summarize.nonLossMetrics) := by
+  decide +kernel
+
+/-! ### 2. sums: cell level, triangle level, conservation -/
+
+/-- `f` is summed: with `summarize_premium = True`, on incremental triangles (the flag is not passed on),
+or for every field outside NON_LOSS_METRICS -/
+def Summed (prem incr : Bool) (f : String) : Prop :=
+  prem = true ∨ incr = true ∨ f ∉ Generated.Summarize.nonLossMetrics
+
+theorem summed_flag {prem incr : Bool} {f : String} (h : Summed prem incr f) :
+    (if incr then true else prem) = true ∨ f ∉ Generated.Summarize.nonLossMetrics := by
+  rcases h with h | h | h
+  · subst h; cases incr <;> simp
+  · subst h; simp
+  · exact Or.inr h
+
+/-- **`summarize_cell_spec`.** One output cell per distinct coordinate (the output coordinates are a
+permutation of the distinct input coordinates, so none is missing and none repeated); every output cell
+carries the gcd metadata and the class of the triangle; and every field whose rule is the sum of itself equals,
+sample by sample, the sum of that field over ALL input cells at the output cell's coordinate (cells without
+the field count 0). -/
+theorem summarize_cell_spec {tr : Transc} {extra : List RuleEntry} {t out : List Cell} {prem : Bool}
+    (h : summarize tr extra t prem = .ok out) :
+    (out.map (coordKey (smIsIncremental t))).Perm (smDedup (t.map (coordKey (smIsIncremental t)))) ∧
+    ∀ o ∈ out,
+      metadataGcd t = .ok o.md ∧
+      o.kind = (if smIsIncremental t then CellKind.incremental else CellKind.cumulative) ∧
+      ∀ (f : String) (i : Nat),
+        ruleOf extra (lowerKey f) = some ⟨.sum, [f]⟩ → Summed prem (smIsIncremental t) f →
+        (∀ c ∈ groupOf (smIsIncremental t) t o, (c.getV f).inRange i = true) →
+        (o.getV f).at i = sumAt (groupOf (smIsIncremental t) t o) f i ∧ (o.getV f).inRange i = true := by
+  obtain ⟨md, cells, hmd, hcells, hperm⟩ := summarize_decompose h
+  have hkeys : cells.map (coordKey (smIsIncremental t)) =
+      (groupsOf (coordKey (smIsIncremental t)) t).map (·.1) :=
+    smMapE_map _ _ hcells (fun g hg o ho => summaryCell_coordKey hg ho)
+  refine ⟨?_, ?_⟩
+  · have := hperm.map (coordKey (smIsIncremental t))
+    rw [hkeys] at this
+    simpa [groupsOf, List.map_map, Function.comp_def] using this
+  · intro o ho
+    obtain ⟨g, hg, hgo⟩ := smMapE_mem hcells (hperm.mem_iff.mp ho)
+    have hk := summaryCell_coordKey hg hgo
+    obtain ⟨vals, hvals, ho'⟩ := summaryCell_ok hgo
+    have hg2 : g.2 = groupOf (smIsIncremental t) t o := by
+      unfold groupsOf at hg
+      obtain ⟨k, _, rfl⟩ := List.mem_map.mp hg
+      simp only at hk
+      simp only [groupOf, hk]
+    refine ⟨by rw [hmd, ho'], by rw [ho'], ?_⟩
+    intro f i hr hs hin
+    have := summarizeCellValues_sum_at' (i := i) hvals (summed_flag hs) hr (by rw [hg2]; exact hin)
+    rw [hg2] at this
+    have hget : o.getV f = (Dict.get? vals f).getD .none := by rw [ho']; rfl
+    rw [hget]
+    exact this
+
+/-- **`summarize_conserves`.** Every summed field total is conserved, sample by sample. -/
+theorem summarize_conserves {tr : Transc} {extra : List RuleEntry} {t out : List Cell} {prem : Bool}
+    {f : String} {i : Nat}
+    (h : summarize tr extra t prem = .ok out)
+    (hr : ruleOf extra (lowerKey f) = some ⟨.sum, [f]⟩) (hs : Summed prem (smIsIncremental t) f)
+    (hin : ∀ c ∈ t, (c.getV f).inRange i = true) :
+    sumAt out f i = sumAt t f i ∧ ∀ o ∈ out, (o.getV f).inRange i = true := by
+  obtain ⟨md, cells, hmd, hcells, hperm⟩ := summarize_decompose h
+  have hcell : ∀ g ∈ groupsOf (coordKey (smIsIncremental t)) t, ∀ o,
+      summaryCell tr extra (smIsIncremental t) prem md g = .ok o →
+      (o.getV f).at i = (g.2.map fun c => (c.getV f).at i).sum ∧ (o.getV f).inRange i = true := by
+    intro g hg o hgo
+    obtain ⟨vals, hvals, ho'⟩ := summaryCell_ok hgo
+    have hsub : ∀ c ∈ g.2, c ∈ t := by
+      unfold groupsOf at hg
+      obtain ⟨k, _, rfl⟩ := List.mem_map.mp hg
+      intro c hc; exact (List.mem_filter.mp hc).1
+    have := summarizeCellValues_sum_at' (i := i) hvals (summed_flag hs) hr
+      (fun c hc => hin c (hsub c hc))
+    have hget : o.getV f = (Dict.get? vals f).getD .none := by rw [ho']; rfl
+    rw [hget]; exact this
+  refine ⟨?_, ?_⟩
+  · unfold sumAt
+    rw [sum_perm (hperm.map _),
+      smMapE_sum (fun o => (o.getV f).at i) (fun g => (g.2.map fun c => (c.getV f).at i).sum) hcells
+        (fun g hg o ho => (hcell g hg o ho).1)]
+    unfold groupsOf
+    rw [List.map_map]
+    exact sum_groups (coordKey (smIsIncremental t)) (fun c => (c.getV f).at i) _ t (nodup_smDedup _)
+      (fun a ha => mem_smDedup.mpr (List.mem_map.mpr ⟨a, ha, rfl⟩))
+  · intro o ho
+    obtain ⟨g, hg, hgo⟩ := smMapE_mem hcells (hperm.mem_iff.mp ho)
+    exact (hcell g hg o hgo).2
+
+/-- the two theorems above for the DEFAULT table and the 22 additive fields of the property -/
+theorem summarize_conserves_additive {tr : Transc} {t out : List Cell} {prem : Bool} {f : String}
+    {i : Nat} (h : summarize tr [] t prem = .ok out) (hf : f ∈ additiveFields)
+    (hs : Summed prem (smIsIncremental t) f) (hin : ∀ c ∈ t, (c.getV f).inRange i = true) :
+    sumAt out f i = sumAt t f i := by
+  have hb := additive_rules_bound f (by rw [← additiveFields_eq]; exact hf)
+  exact (summarize_conserves h (by rw [hb.1]; exact hb.2) hs hin).1
+
+/-! ### 3. `summarize_premium = False` -/
+
+/-- **`no_premium_sum`.** On a cumulative triangle with `summarize_premium = False` loss fields are still the
+sums over all cells of the coordinate (this is `summarize_cell_spec` with `Summed` holding by the third
+alternative), while a premium/exposure field present in the group takes the value of the FIRST cell of the
+group (`None` if that cell lacks it) — it is not multiplied by the number of loss layers. -/
+theorem no_premium_sum {tr : Transc} {extra : List RuleEntry} {t out : List Cell}
+    (h : summarize tr extra t false = .ok out) (hinc : smIsIncremental t = false) :
+    ∀ o ∈ out, ∃ c0 rest, groupOf false t o = c0 :: rest ∧
+      ∀ f ∈ Generated.Summarize.nonLossMetrics, (∃ c ∈ groupOf false t o, f ∈ c.values.keys) →
+        Dict.get? o.values f = some (c0.getV f) := by
+  obtain ⟨md, cells, hmd, hcells, hperm⟩ := summarize_decompose h
+  rw [hinc] at hcells
+  intro o ho
+  obtain ⟨g, hg, hgo⟩ := smMapE_mem hcells (hperm.mem_iff.mp ho)
+  have hk : coordKey false o = g.1 := by
+    have := summaryCell_coordKey (t := t) (tr := tr) (extra := extra) (prem := false) (md := md)
+      (g := g) (o := o) (by rw [hinc]; exact hg) (by rw [hinc]; exact hgo)
+    rw [hinc] at this; exact this
+  obtain ⟨vals, hvals, ho'⟩ := summaryCell_ok hgo
+  have hg2 : g.2 = groupOf false t o := by
+    unfold groupsOf at hg
+    obtain ⟨k, _, rfl⟩ := List.mem_map.mp hg
+    simp only at hk
+    simp only [groupOf, hk]
+  have hne : g.2 ≠ [] := by
+    unfold groupsOf at hg
+    obtain ⟨k, hk', rfl⟩ := List.mem_map.mp hg
+    obtain ⟨c, hc, rfl⟩ := List.mem_map.mp (mem_smDedup.mp hk')
+    intro he
+    have : c ∈ t.filter (fun a => coordKey false a == coordKey false c) :=
+      List.mem_filter.mpr ⟨hc, by simp⟩
+    simp only at he
+    rw [he] at this; simp at this
+  rw [← hg2]
+  cases hgc : g.2 with
+  | nil => exact absurd hgc hne
+  | cons c0 rest =>
+    refine ⟨c0, rest, rfl, ?_⟩
+    intro f hf hex
+    simp only [Bool.false_eq_true, if_false] at hvals
+    rw [hgc] at hvals
+    have := summarizeCellValues_noprem_first hvals hf (mem_valueKeys.mpr hex)
+    rw [ho']; exact this
+
+/-! ### 4. the metadata of the result: exactly what every cell shares -/
+
+/-- **`gcd_keeps_exactly_shared`.** Risk basis and currency are those of every cell; each of the four optional
+attributes is kept iff every cell has that same value; a detail (loss-detail) entry is kept iff every cell has the
+key with that same value and the value is not `None`. -/
+theorem gcd_keeps_exactly_shared {t : List Cell} {m : Metadata} (h : metadataGcd t = .ok m)
+    (hn : ∀ c ∈ t, c.md.details.keys.Nodup ∧ c.md.lossDetails.keys.Nodup) :
+    (∀ c ∈ t, c.md.riskBasis = m.riskBasis ∧ c.md.currency = m.currency) ∧
+    (∀ x, m.country = some x ↔ ∀ c ∈ t, c.md.country = some x) ∧
+    (∀ x, m.limit = some x ↔ ∀ c ∈ t, c.md.limit = some x) ∧
+    (∀ x, m.lossDefinition = some x ↔ ∀ c ∈ t, c.md.lossDefinition = some x) ∧
+    (∀ x, m.reinsuranceBasis = some x ↔ ∀ c ∈ t, c.md.reinsuranceBasis = some x) ∧
+    (∀ k v, Dict.get? m.details k = some v ↔ v ≠ .none ∧ ∀ c ∈ t, Dict.get? c.md.details k = some v) ∧
+    (∀ k v, Dict.get? m.lossDetails k = some v ↔
+      v ≠ .none ∧ ∀ c ∈ t, Dict.get? c.md.lossDetails k = some v) := by
+  unfold metadataGcd at h
+  split at h
+  · cases h
+  · rename_i hrb
+    split at h
+    · cases h
+    · rename_i hcu
+      cases t with
+      | nil => cases h
+      | cons c0 rest =>
+        simp only at h
+        cases h
+        have hrb' := (allSame_map_iff c0 rest (fun c : Cell => c.md.riskBasis)).mp (by simpa using hrb)
+        have hcu' := (allSame_map_iff c0 rest (fun c : Cell => c.md.currency)).mp (by simpa using hcu)
+        refine ⟨fun c hc => ⟨hrb' c hc, hcu' c hc⟩, attrGcd_eq_some_iff c0 rest _, attrGcd_eq_some_iff c0 rest _,
+          attrGcd_eq_some_iff c0 rest _, attrGcd_eq_some_iff c0 rest _, ?_, ?_⟩
+        · intro k v
+          have := detailsGcd_get? c0.md.details (rest.map (·.md.details)) k v (hn c0 (by simp)).1
+          simpa [List.mem_map] using this
+        · intro k v
+          have := detailsGcd_get? c0.md.lossDetails (rest.map (·.md.lossDetails)) k v (hn c0 (by simp)).2
+          simpa [List.mem_map] using this
+
+/-! ### 5. refusals -/
+
+theorem summarize_error_mixed_risk_basis {tr : Transc} {extra : List RuleEntry} {t : List Cell}
+    {prem : Bool} (h : ∃ a ∈ t, ∃ b ∈ t, a.md.riskBasis ≠ b.md.riskBasis) :
+    summarize tr extra t prem = .error .triangleError := by
+  obtain ⟨a, ha, b, hb, hne⟩ := h
+  have := allSame_false_of_ne (f := fun c : Cell => c.md.riskBasis) ha hb hne
+  simp [summarize, metadataGcd, this]
+
+theorem summarize_error_mixed_currency {tr : Transc} {extra : List RuleEntry} {t : List Cell}
+    {prem : Bool} (h : ∃ a ∈ t, ∃ b ∈ t, a.md.currency ≠ b.md.currency) :
+    summarize tr extra t prem = .error .triangleError := by
+  obtain ⟨a, ha, b, hb, hne⟩ := h
+  have := allSame_false_of_ne (f := fun c : Cell => c.md.currency) ha hb hne
+  unfold summarize metadataGcd
+  split <;> simp_all
+
+/-- a field without an aggregation rule is refused by `summarize_cell_values` with `TriangleError`, before any
+rule runs -/
+theorem summarize_cell_values_error_unknown_field {tr : Transc} {extra : List RuleEntry}
+    {cells : List Cell} {prem : Bool}
+    (h : ∃ c ∈ cells, ∃ k ∈ c.values.keys, ruleOf extra (lowerKey k) = none) :
+    summarizeCellValues tr extra cells prem = .error .triangleError :=
+  summarizeCellValues_unknown h
+
+/-- **`summarize_error_unknown_field`.** A triangle holding a field without an aggregation rule is never
+summarized. (The class is `TriangleError` unless an EARLIER coordinate group already failed with another
+class — groups are processed in order; see `summarize_error_unknown_field_class`.) -/
+theorem summarize_error_unknown_field {tr : Transc} {extra : List RuleEntry} {t : List Cell}
+    {prem : Bool} (h : ∃ c ∈ t, ∃ k ∈ c.values.keys, ruleOf extra (lowerKey k) = none) :
+    ∃ e, summarize tr extra t prem = .error e := by
+  cases hs : summarize tr extra t prem with
+  | error e => exact ⟨e, rfl⟩
+  | ok out =>
+    exfalso
+    obtain ⟨md, cells, hmd, hcells, hperm⟩ := summarize_decompose hs
+    obtain ⟨c, hc, k, hk, hr⟩ := h
+    -- the group of `c`
+    have hg : (coordKey (smIsIncremental t) c,
+        t.filter fun a => coordKey (smIsIncremental t) a == coordKey (smIsIncremental t) c) ∈
+        groupsOf (coordKey (smIsIncremental t)) t := by
+      unfold groupsOf
+      exact List.mem_map.mpr ⟨_, mem_smDedup.mpr (List.mem_map.mpr ⟨c, hc, rfl⟩), rfl⟩
+    obtain ⟨o, _, ho⟩ := smMapE_mem' hcells hg
+    obtain ⟨vals, hvals, _⟩ := summaryCell_ok ho
+    have := summarizeCellValues_unknown (tr := tr) (extra := extra)
+      (prem := if smIsIncremental t then true else prem)
+      (cells := t.filter fun a => coordKey (smIsIncremental t) a == coordKey (smIsIncremental t) c)
+      ⟨c, List.mem_filter.mpr ⟨hc, by simp⟩, k, hk, hr⟩
+    rw [this] at hvals
+    cases hvals
+
+/-- when the metadata are consistent and the unknown field sits at the coordinate of the first cell (the first
+group processed), the class is `TriangleError` -/
+theorem summarize_error_unknown_field_class {tr : Transc} {extra : List RuleEntry} {c0 : Cell}
+    {rest : List Cell} {prem : Bool} {md : Metadata} (hmd : metadataGcd (c0 :: rest) = .ok md)
+    (h : ∃ c ∈ c0 :: rest,
+      coordKey (smIsIncremental (c0 :: rest)) c = coordKey (smIsIncremental (c0 :: rest)) c0 ∧
+      ∃ k ∈ c.values.keys, ruleOf extra (lowerKey k) = none) :
+    summarize tr extra (c0 :: rest) prem = .error .triangleError := by
+  obtain ⟨c, hc, hkey, k, hk, hr⟩ := h
+  unfold summarize
+  rw [hmd]
+  simp only
+  rw [groupBy_eq_groupsOf]
+  have hgs : ∃ tl, groupsOf (coordKey (smIsIncremental (c0 :: rest))) (c0 :: rest) =
+      (coordKey (smIsIncremental (c0 :: rest)) c0,
+        (c0 :: rest).filter fun a =>
+          coordKey (smIsIncremental (c0 :: rest)) a == coordKey (smIsIncremental (c0 :: rest)) c0) :: tl := by
+    unfold groupsOf
+    simp [smDedup, smDedupAux]
+  obtain ⟨tl, htl⟩ := hgs
+  rw [htl]
+  have : summaryCell tr extra (smIsIncremental (c0 :: rest)) prem md
+      (coordKey (smIsIncremental (c0 :: rest)) c0,
+        (c0 :: rest).filter fun a =>
+          coordKey (smIsIncremental (c0 :: rest)) a == coordKey (smIsIncremental (c0 :: rest)) c0)
+      = .error .triangleError := by
+    unfold summaryCell
+    rw [summarizeCellValues_unknown ⟨c, List.mem_filter.mpr ⟨hc, by simp [hkey]⟩, k, hk, hr⟩]
+  simp only [smMapE, this]
+
+/-! ### 6. the executable Spec predicates hold on the model's output (bridge) -/
+
+
+/-- `Spec.conserves` is true on the model's output for the additive fields that are summed -/
+theorem spec_conserves {tr : Transc} {t out : List Cell} {prem : Bool} {fields : List String}
+    (h : summarize tr [] t prem = .ok out)
+    (hf : ∀ f ∈ fields, f ∈ additiveFields ∧ Summed prem (smIsIncremental t) f) :
+    conserves fields t out = true := by
+  simp only [conserves, List.all_eq_true]
+  intro f hf' i _
+  cases hin : allInRange t f i with
+  | false => simp
+  | true =>
+    have hb := additive_rules_bound f (by rw [← additiveFields_eq]; exact (hf f hf').1)
+    have := summarize_conserves (i := i) h (by rw [hb.1]; exact hb.2) (hf f hf').2
+      (by simpa [allInRange, List.all_eq_true] using hin)
+    simp only [Bool.not_true, Bool.false_or, Bool.and_eq_true, beq_iff_eq]
+    exact ⟨by simpa [allInRange, List.all_eq_true] using this.2, this.1⟩
+
+/-- `Spec.cellSums` is true on the model's output -/
+theorem spec_cellSums {tr : Transc} {t out : List Cell} {prem : Bool} {fields : List String}
+    (h : summarize tr [] t prem = .ok out)
+    (hf : ∀ f ∈ fields, f ∈ additiveFields ∧ Summed prem (smIsIncremental t) f) :
+    cellSums fields t out = true := by
+  simp only [cellSums, List.all_eq_true]
+  intro o ho f hf' i _
+  cases hin : allInRange (groupOf (smIsIncremental t) t o) f i with
+  | false => simp
+  | true =>
+    have hb := additive_rules_bound f (by rw [← additiveFields_eq]; exact (hf f hf').1)
+    have := ((summarize_cell_spec h).2 o ho).2.2 f i (by rw [hb.1]; exact hb.2) (hf f hf').2
+      (by simpa [allInRange, List.all_eq_true] using hin)
+    simp only [Bool.not_true, Bool.false_or, Bool.and_eq_true, beq_iff_eq]
+    exact ⟨this.2, this.1⟩
+
+/-- `Spec.coordsOk` is true on the model's output: one cell per distinct coordinate, of the right class -/
+theorem spec_coordsOk {tr : Transc} {extra : List RuleEntry} {t out : List Cell} {prem : Bool}
+    (h : summarize tr extra t prem = .ok out) : coordsOk t out = true := by
+  obtain ⟨hperm, hcells⟩ := summarize_cell_spec h
+  simp only [coordsOk, Bool.and_eq_true, List.all_eq_true]
+  refine ⟨⟨⟨?_, ?_⟩, ?_⟩, ?_⟩
+  · exact nodupB_of_nodup (hperm.nodup_iff.mpr (nodup_smDedup _))
+  · intro k hk
+    simpa using hperm.mem_iff.mpr (mem_smDedup.mpr hk)
+  · intro k hk
+    simpa using mem_smDedup.mp (hperm.mem_iff.mp hk)
+  · intro o ho
+    simpa using (hcells o ho).2.1
+
+
+/-- `Spec.nonLossOk` is true on the model's output (cumulative triangle, `summarize_premium = False`) -/
+theorem spec_nonLossOk {tr : Transc} {extra : List RuleEntry} {t out : List Cell}
+    (h : summarize tr extra t false = .ok out) (hinc : smIsIncremental t = false) :
+    nonLossOk Generated.Summarize.nonLossMetrics t out = true := by
+  simp only [nonLossOk, List.all_eq_true, hinc]
+  intro o ho f hf
+  obtain ⟨c0, rest, hg, hfirst⟩ := no_premium_sum h hinc o ho
+  cases hany : (groupOf false t o).any (fun c => c.values.contains f) with
+  | false => simp
+  | true =>
+    obtain ⟨c, hc, hcf⟩ := List.any_eq_true.mp hany
+    have := hfirst f hf ⟨c, hc, (Dict.contains_iff _ _).mp hcf⟩
+    simp only [Bool.not_true, Bool.false_or]
+    rw [this]
+    simp only [List.any_eq_true, beq_iff_eq]
+    exact ⟨c0, by rw [hg]; simp, rfl⟩
+
+
+/-! ### 7. ratio fields -/
+
+/-- **`summarize_ratio_spec`.** With the rules summed (`summarize_premium = True` or an incremental triangle) a
+field whose rule is the `w`-weighted average of itself — by `ratio_rules_bound`: `implied_atu`, `bf_weight`,
+`geometric_weight` with `w = reported_loss` — satisfies, in the output cell `o` and sample by sample,
+`o[f] × Σ w = Σ value × w` over the input cells at `o`'s coordinate, the denominator being the (non-zero) sum of
+the weights of ALL those cells. (`log_industry_lr`: the same shape around `np.exp`/`np.log`, which are outside the
+model; its value is compared in Python with a tolerance.) -/
+theorem summarize_ratio_spec {tr : Transc} {extra : List RuleEntry} {t out : List Cell} {prem : Bool}
+    {f w : String} {i : Nat}
+    (h : summarize tr extra t prem = .ok out) (hp : prem = true ∨ smIsIncremental t = true)
+    (hr : ruleOf extra (lowerKey f) = some ⟨.wavg, [f, w]⟩) :
+    ∀ o ∈ out, (∃ c ∈ groupOf (smIsIncremental t) t o, f ∈ c.values.keys) →
+      (∀ c ∈ groupOf (smIsIncremental t) t o,
+        (c.getV f).inRange i = true ∧ (c.getV w).inRange i = true) →
+      (o.getV f).at i * sumAt (groupOf (smIsIncremental t) t o) w i =
+        ((groupOf (smIsIncremental t) t o).map fun c => (c.getV f).at i * (c.getV w).at i).sum ∧
+      sumAt (groupOf (smIsIncremental t) t o) w i ≠ 0 := by
+  obtain ⟨md, cells, hmd, hcells, hperm⟩ := summarize_decompose h
+  intro o ho hex hin
+  obtain ⟨g, hg, hgo⟩ := smMapE_mem hcells (hperm.mem_iff.mp ho)
+  have hk := summaryCell_coordKey hg hgo
+  obtain ⟨vals, hvals, ho'⟩ := summaryCell_ok hgo
+  have hg2 : g.2 = groupOf (smIsIncremental t) t o := by
+    unfold groupsOf at hg
+    obtain ⟨k, _, rfl⟩ := List.mem_map.mp hg
+    simp only at hk
+    simp only [groupOf, hk]
+  have hflag : (if smIsIncremental t then true else prem) = true := by
+    rcases hp with hp | hp
+    · subst hp; cases smIsIncremental t <;> rfl
+    · rw [hp]; rfl
+  rw [hflag, hg2] at hvals
+  obtain ⟨v, hd, h1, h2⟩ := summarizeCellValues_wavg_at (i := i) hvals hr (mem_valueKeys.mpr hex) hin
+  have hget : o.getV f = v := by rw [ho']; simp [Cell.getV, hd]
+  rw [hget]
+  exact ⟨h1, h2⟩
+
+-- OPEN spec_metaOk
+-- theorem spec_metaOk (h : summarize tr extra t prem = .ok out) (hn : every details dict has distinct keys) :
+--     Spec.C09.metaOk t out = true
+-- (the Prop version is `gcd_keeps_exactly_shared` + `summarize_cell_spec` (`metadataGcd t = .ok o.md`); the
+--  Bool bridge through `attrShared` / `detailsShared` is not written.)
+-- OPEN spec_keysOk
+-- theorem spec_keysOk (h : summarize tr extra t prem = .ok out) (hn : every values dict has distinct keys) :
+--     Spec.C09.keysOk t out = true
+-- (an output cell carries exactly the union of the field names of its group: follows from `smMapE_keys` and
+--  `mem_valueKeys`; the Bool bridge is not written.)
+-- OPEN spec_ratioOk
+-- theorem spec_ratioOk : Spec.C09.ratioOk tol "reported_loss" ratioFields t out = true
+-- (the exact statement is `summarize_ratio_spec`; the Spec compares within a tolerance because the implementation
+--  computes in floats — bridge not written.)
+
+/-! ### 8. non-vacuity -/
+
+def exT : List Cell :=
+  [ { kind := .cumulative, ps := ⟨2020, 1, 1⟩, pe := ⟨2020, 12, 31⟩, ev := ⟨2020, 12, 31⟩,
+      values := [("paid_loss", .int 10), ("earned_premium", .flt 100)],
+      md := { country := some "US", details := [("coverage", .str "BI"), ("state", .str "NY")] } },
+    { kind := .cumulative, ps := ⟨2020, 1, 1⟩, pe := ⟨2020, 12, 31⟩, ev := ⟨2020, 12, 31⟩,
+      values := [("paid_loss", .int 5), ("reported_loss", .int 7)],
+      md := { country := some "US", details := [("coverage", .str "PD"), ("state", .str "NY")] } } ]
+
+/-- the theorems are not vacuous: a two-slice triangle (slices differ in a detail, share country and another
+detail, hold different field subsets) is summarized to one cell with paid_loss 15, the shared metadata kept -/
+example :
+    (match summarize Transc.id [] exT true with
+     | .ok out => decide (out =
+        [ { kind := .cumulative, ps := ⟨2020, 1, 1⟩, pe := ⟨2020, 12, 31⟩, ev := ⟨2020, 12, 31⟩,
+            values := [("paid_loss", .int 15), ("earned_premium", .flt 100), ("reported_loss", .int 7)],
+            md := { country := some "US", details := [("state", .str "NY")] } } ])
+     | .error _ => false) = true := by
   decide +kernel
 
 end Bermuda.Properties.C09
